@@ -6,10 +6,13 @@
 // harness-signed with the provider key, expired, wrong key, foreign issuer, azp of
 // another client, no azp, alg none, HMAC with the public key, tampered, garbage,
 // `null` payload, ...) x client_id (absent, A, B, unknown, empty) x
-// post_logout_redirect_uri (32 classes: absent, registered for A, registered for B
+// post_logout_redirect_uri (34 classes: absent, registered for A, registered for B
 // only, glob hit / miss / the pattern itself, the provider default, 20 near misses,
-// unparsable, sent twice) x 8 registrations of A (exact, opted-in globs, globs not
-// opted in, malformed glob first/last, nothing, odd URIs, wildcard) x state class x
+// unparsable, sent twice, a registered exact URI of A / of B with its glob
+// metacharacter ? * [ ] \ replaced by what a glob would match there) x 10
+// registrations of A (exact, opted-in globs, globs not opted in, malformed glob
+// first/last, nothing, odd URIs, wildcard, exact URIs full of glob metacharacters
+// without / with glob opt-in) x state class x
 // storage variant (TerminateSession / TerminateSessionFromRequest / the latter
 // answering its own URI) x default-URI variant x signing algorithm.
 //
@@ -315,6 +318,14 @@ func execCase(run *ev.Run, worker, router int, cs *caseSpec) {
 	run.Count("outcome_by_registration", cs.A+"|"+outcome)
 	if len(requested) > 0 && provenClient != "" && regs[provenClient] != nil && !anyRegistered && (rejected || outcome == "302-default" || outcome == "302-storage") {
 		run.Observed("unregistered-refused:" + rn)
+		if strings.HasPrefix(cs.UClass, "meta-subst") {
+			opt := "not-opted-in"
+			if regs[provenClient].Globs {
+				opt = "opted-in"
+			}
+			run.Observed("meta-subst-refused:" + opt + ":" + rn)
+			run.Count("meta_subst", cs.UClass+"|"+provenClient+"|"+outcome)
+		}
 	}
 	if strings.HasPrefix(cs.A, "a-badglob") && provenClient == cs.A && len(requested) > 0 {
 		run.Observed("malformed-glob-decided:" + rn)
@@ -402,7 +413,7 @@ func hintKind(h *hintSpec) string {
 
 func main() {
 	run := ev.Start("C18", "exploration")
-	run.SetRule("case index = mixed radix over (hint class 26, client_id class 5, post_logout_redirect_uri class 32, registration of client A 8) x rounds; per case state class/value, B registration, storage variant, default-URI variant, signing algorithm, method, subject and the concrete URI/mutation are drawn from the case PRNG; every case is executed on the Provider router and the LegacyServer router (one evaluation each); distinct = distinct vectors (router, hint class, client_id class, URI class, A registration, storage variant) that were answered and judged")
+	run.SetRule("case index = mixed radix over (hint class 26, client_id class 5, post_logout_redirect_uri class 34, registration of client A 10) x rounds; per case state class/value, B registration, storage variant, default-URI variant, signing algorithm, method, subject and the concrete URI/mutation are drawn from the case PRNG; every case is executed on the Provider router and the LegacyServer router (one evaluation each); distinct = distinct vectors (router, hint class, client_id class, URI class, A registration, storage variant) that were answered and judged")
 	run.Assume(
 		"glob semantics = path.Match as documented for op.HasRedirectGlobs; a malformed pattern registers nothing",
 		"a redirect target 'is' a requested URI when scheme/host (case-insensitively), userinfo, path, fragment and the multiset of query parameters other than state agree",
@@ -416,7 +427,8 @@ func main() {
 		}
 		run.Mandatory("redirect-registered-by-hint:"+rn, "redirect-registered-by-client_id:"+rn, "glob-redirect:"+rn, "expired-accepted:"+rn,
 			"bad-signature-rejected:"+rn, "foreign-issuer-rejected:"+rn, "contradiction-rejected:"+rn, "unregistered-refused:"+rn,
-			"state-roundtrip:"+rn, "terminate-matched:"+rn, "terminate-from-request:"+rn, "default-redirect:"+rn, "storage-redirect:"+rn, "malformed-glob-decided:"+rn)
+			"state-roundtrip:"+rn, "terminate-matched:"+rn, "terminate-from-request:"+rn, "default-redirect:"+rn, "storage-redirect:"+rn, "malformed-glob-decided:"+rn,
+			"meta-subst-refused:opted-in:"+rn, "meta-subst-refused:not-opted-in:"+rn)
 	}
 	p := product()
 	rounds := run.N(1, 24)
